@@ -1251,14 +1251,15 @@ def build_operator_operand_fixup(capture_error_state):
             String / Number multiplication
         """
         left_list, right_list = list_like(left_op), list_like(right_op)
-        if not left_list and left_op in ERROR_CODES:
+        if left_list or right_list:
+            # element by element, also when the other operand is an error
+            return array_fixup(left_op, op, right_op)
+
+        if left_op in ERROR_CODES:
             return left_op
 
-        if not right_list and right_op in ERROR_CODES:
+        if right_op in ERROR_CODES:
             return right_op
-
-        if left_list or right_list:
-            return array_fixup(left_op, op, right_op)
 
         if op in COMPARISION_OPS:
             if left_op in (None, EMPTY):
